@@ -41,13 +41,21 @@
    _run); an ASDU handed over goes into the FIFO of the configured capacity that displaces its oldest entry (C16_slave_rings_enqueue);
    for every history of frames and hand-overs the ring-backed station produces the list station's output (C16_slave_rings_history).
    su_run_r is the function the composed line executes against the real CS101 slaves on every run.
+   (10) THE UNBALANCED LINE WITH THE RINGS (Link/LinkLineUQ.v, LinkLineUR.v): the line of (6) with bounded class queues (a hand-over
+   displaces the oldest entry when the queue is full) keeps its invariant and its exactly-once statement (C16_ulineq_exactly_once);
+   the line whose slave is the ring-backed station of (9) is, step by step and history by history, that line under the abstraction
+   of the rings (C16_uline_r_refines), hence: literal primary x literal secondary x literal class-queue rings over a lossy line,
+   every history: delivered = taken from the rings, in order, each once (C16_uline_r_exactly_once).
+   (11) FRAMES IN TRANSIT on the unbalanced line (Link/LinkLineUD.v): as (8) for the master's slave connection and the slave: runs,
+   deliveries, losses and application calls on either side in any order; under the same timing assumption the statement of (6)
+   holds for every history in both directions (C16_udline_exactly_once, C16_udline_quiescent).
    NOT proved: more than one frame per direction in transit and answers arriving after the acknowledgement timeout (excluded by
-   the timing assumption), delayed frames on the unbalanced line, the broadcast service of the unbalanced master, and the composition with the
+   the timing assumption), the broadcast service of the unbalanced master, several slaves with frames in transit, and the composition with the
    ring of the class queues (cs101_queue.c; the slave application here is the FIFO stub of the harness).  Those stay with the
    differential execution of the composed model against the real CS101_Master / CS101_Slave objects on the simulated
    line, and with the exactly-once oracle, on every run. *)
 From Coq Require Import ZArith List Bool.
-From L60870 Require Import Link.Abp Link.AbpProofs Link.Cs101Queue Link.Cs101QueueProofs Link.Ft12 Link.LinkSec Link.LinkPrim Link.Ft12Proofs Link.LinkProofs Link.LinkOnce Link.LinkLine Link.LinkLineU Link.LinkLineM Link.LinkLineD Link.LinkSecQ.
+From L60870 Require Import Link.Abp Link.AbpProofs Link.Cs101Queue Link.Cs101QueueProofs Link.Ft12 Link.LinkSec Link.LinkPrim Link.Ft12Proofs Link.LinkProofs Link.LinkOnce Link.LinkLine Link.LinkLineU Link.LinkLineM Link.LinkLineD Link.LinkSecQ Link.LinkLineUQ Link.LinkLineUR Link.LinkLineUD.
 Import ListNotations.
 Local Open Scope Z_scope.
 
@@ -282,6 +290,79 @@ Example C16_slave_rings_example :
   map (fun o => match o with OTx f => if nth 0 f 0 =? 104 then nth 4 f 0 else nth 1 f 0 | _ => -1 end) (snd (qrun_r true exq_c exq_x exq_es)) =
   [40; 8; 8; 9].
 Proof. exact suq_example. Qed.
+
+(* the unbalanced line with bounded class queues (Link/LinkLineUQ.v): ustepq = ustep, except that a hand-over to a full class queue
+   first displaces its oldest entry (the FIFO the rings refine) *)
+Theorem C16_ulineq_exactly_once : forall v c addr, 0 <= alen c <= 2 -> fc_ v = true -> fg v = true -> fh v = true -> fi v = true ->
+  addr_in_range (alen c) addr -> addr <> broadcast_addr (alen c) ->
+  forall n1 n2 evs st, JU c addr st -> ufail st = false ->
+  let st' := fold_left (ustepq v c n1 n2) evs st in ufail st' = false ->
+  (uD st' = uT st' \/ (uT st' = uD st' ++ [sc_msg (um st')] /\ sc_ps (um st') = PLL_SEND_CONFIRM)) /\
+  (uU st' = uR st' \/ (uR st' = uU st' ++ [su_udbuf (us st')] /\ sc_ps (um st') = PLL_REQUEST_RESPOND)).
+Proof. exact ulineq_exactly_once. Qed.
+
+Theorem C16_ulineq_enqueue : forall v c n1 n2 st cls d, umsg_okb c d = true ->
+  us (ustepq v c n1 n2 st (UEnq cls d)) =
+  (if cls then su_with_q (us st) (fifo_enqueue n1 (su_q1 (us st)) d) (su_q2 (us st))
+   else su_with_q (us st) (su_q1 (us st)) (fifo_enqueue n2 (su_q2 (us st)) d)).
+Proof. exact ustepq_enqueue. Qed.
+
+(* the line whose slave keeps its class queues in the literal rings (Link/LinkLineUR.v) *)
+Theorem C16_uline_r_refines : forall v c evs st, QI (rs st) ->
+  absR (fold_left (ustep_r v c) evs st) = fold_left (ustepq v c (fst (sizes (rs st))) (snd (sizes (rs st)))) evs (absR st) /\
+  QI (rs (fold_left (ustep_r v c) evs st)).
+Proof. exact uline_r_refines. Qed.
+
+Theorem C16_uline_r_exactly_once : forall v c addr, 0 <= alen c <= 2 -> fc_ v = true -> fg v = true -> fh v = true -> fi v = true ->
+  addr_in_range (alen c) addr -> addr <> broadcast_addr (alen c) ->
+  forall evs st, QI (rs st) -> JU c addr (absR st) -> rfail st = false ->
+  let st' := fold_left (ustep_r v c) evs st in rfail st' = false ->
+  (rD st' = rT st' \/ (rT st' = rD st' ++ [sc_msg (rm st')] /\ sc_ps (rm st') = PLL_SEND_CONFIRM)) /\
+  (rU st' = rR st' \/ (rR st' = rU st' ++ [su_udbuf (sq_s (rs st'))] /\ sc_ps (rm st') = PLL_REQUEST_RESPOND)).
+Proof. exact uline_r_exactly_once. Qed.
+
+Example C16_uline_r_hypotheses : QI (rs uexr_st) /\ absR uexr_st = uex_st /\ JU uex_c 3 (absR uexr_st).
+Proof. split; [exact (proj1 uline_r_hypotheses)|]. split; [exact (proj2 uline_r_hypotheses) | exact uline_r_invariant_holds_initially]. Qed.
+
+Example C16_uline_r_example :
+  let st' := fold_left (ustep_r uex_v uex_c) uex_evs uexr_st in
+  rfail st' = false /\ rD st' = [[45; 1; 6; 0; 1; 0; 7]] /\ rT st' = rD st' /\
+  rU st' = [[30; 1; 3; 0; 1; 0; 2]; [9; 1; 3; 0; 1; 0; 3]] /\ rR st' = rU st'.
+Proof. exact uline_r_example. Qed.
+
+(* the unbalanced line with frames in transit (Link/LinkLineUD.v).  JUD is JU of the synchronous line plus the place of the outstanding
+   frame: under way to the slave, nothing on the line, or the slave's answer under way (and then the slave has processed the frame). *)
+Theorem C16_udline_exactly_once : forall v c addr, 0 <= alen c <= 2 -> fc_ v = true -> fg v = true -> fh v = true -> fi v = true ->
+  addr_in_range (alen c) addr -> addr <> broadcast_addr (alen c) ->
+  forall evs st, JUD c addr st -> xfl st = false -> xtm st = false ->
+  let st' := fold_left (xstep v c) evs st in xfl st' = false -> xtm st' = false ->
+  (xD st' = xT st' \/ (xT st' = xD st' ++ [sc_msg (xm st')] /\ sc_ps (xm st') = PLL_SEND_CONFIRM)) /\
+  (xU st' = xR st' \/ (xR st' = xU st' ++ [su_udbuf (xs st')] /\ sc_ps (xm st') = PLL_REQUEST_RESPOND)).
+Proof. exact udline_exactly_once. Qed.
+
+Theorem C16_udline_invariant : forall v c addr, 0 <= alen c <= 2 -> fc_ v = true -> fg v = true -> fh v = true -> fi v = true ->
+  addr_in_range (alen c) addr -> addr <> broadcast_addr (alen c) ->
+  forall evs st, JUD c addr st -> xfl st = false -> xtm st = false ->
+  xfl (fold_left (xstep v c) evs st) = false -> xtm (fold_left (xstep v c) evs st) = false ->
+  JUD c addr (fold_left (xstep v c) evs st).
+Proof. exact udline_invariant. Qed.
+
+Theorem C16_udline_quiescent : forall v c addr, 0 <= alen c <= 2 -> fc_ v = true -> fg v = true -> fh v = true -> fi v = true ->
+  addr_in_range (alen c) addr -> addr <> broadcast_addr (alen c) ->
+  forall evs st, JUD c addr st -> xfl st = false -> xtm st = false ->
+  let st' := fold_left (xstep v c) evs st in xfl st' = false -> xtm st' = false -> sc_ps (xm st') = PLL_AVAILABLE ->
+  xD st' = xT st' /\ xU st' = xR st' /\ xAB st' = None /\ xBA st' = None /\ sc_nfcb (xm st') = su_efcb (xs st').
+Proof. exact udline_quiescent. Qed.
+
+Example C16_udline_hypotheses : JUD uex_c 3 udex_st.
+Proof. exact udline_hypotheses. Qed.
+
+Example C16_udline_example :
+  let st' := fold_left (xstep uex_v uex_c) udex_evs udex_st in
+  xfl st' = false /\ xtm st' = false /\ xD st' = [[45; 1; 6; 0; 1; 0; 7]] /\ xT st' = xD st' /\
+  xU st' = [[30; 1; 3; 0; 1; 0; 1]; [30; 1; 3; 0; 1; 0; 2]; [30; 1; 3; 0; 1; 0; 4]; [9; 1; 3; 0; 1; 0; 3]] /\ xR st' = xU st' /\
+  xAB st' = None /\ xBA st' = None.
+Proof. exact udline_example. Qed.
 
 Example C16_example :
   delivered nat (abp_run nat (abp_init nat [1; 2; 3]%nat)
